@@ -2,7 +2,7 @@
 
 import numpy as np
 
-from .. import cases, cmp, gen, sim, expect
+from .. import cases, cmp, corpus, gen, sim, expect, w4
 from ..harness import CaseResult
 from ..probe import read
 
@@ -32,14 +32,22 @@ REQUIRED_REACH = [
     "class:ins=sum", "class:ins=diff",
 ]
 BATCH = 60
+RULE = RULE + corpus.RULE_SUFFIX + w4.RULE_SUFFIX
+REQUIRED_REACH = list(REQUIRED_REACH) + ["class:corpus", "class:w4"]
 
 
 def units(tier, seed):
     n = 900 if tier == "quick" else 60000
-    return [{"i": i, "seed": seed} for i in range(n)]
+    # W1 synthetic surveys, then W3 (fixture corpus) and W4 (integration tests as workload)
+    return [{"i": i, "seed": seed} for i in range(n)] + corpus.units(tier, seed) + w4.units(
+        tier, seed)
 
 
 def make_case(unit):
+    if "corpus" in unit:
+        return corpus.make_case(ID, unit)
+    if "w4" in unit:
+        return w4.make_case(ID, unit)
     i = unit["i"]
     g = gen.G("C02/%s/%s" % (unit["seed"], i))
     template = TEMPLATES[i % len(TEMPLATES)]
@@ -83,6 +91,10 @@ def _mask_size(o, pick):
 
 
 def check_case(case):
+    if "fixture" in case:
+        return corpus.check_case(ID, case)
+    if case.get("w4"):
+        return w4.check_case(ID, case)
     res = CaseResult()
     L0 = cases.realize(case)
     o, spec = L0.oracle, L0.spec
@@ -232,5 +244,6 @@ def _strand(res, L, part, msize):
             exp.append(o.count({0: el}, wt and weighted))
         _cmp(res, "margins", "strand/%s" % attr, read(part, attr), np.array(exp))
 
-TECHNIQUE = "reference-model + intrinsic runtime monitors (bases vs oracle; collapsed forms)"
+TECHNIQUE = ("reference-model + intrinsic runtime monitors (bases vs oracle; collapsed forms)"
+             + corpus.TECHNIQUE_SUFFIX)
 DESIGN_REF = "DESIGN.md 4 C02; 2.3"
